@@ -1,7 +1,10 @@
 (* driver.ml — hand-written glue around the extracted model (model.ml).
-   Reads a trace file in the integer-line format, decodes it with the extracted
+   Reads trace files in the integer-line format, decodes them with the extracted
    decoders, runs the extracted comparison / predicates, prints one result line
-   per history.  Part of the trusted base (see DESIGN.md §2.8). *)
+   per history.  Part of the trusted base (see DESIGN.md §2.8).
+
+   usage: oracle <property> <trace> [maxshow]
+          oracle C17pair <trace under no flag> <trace under flags> [maxshow] *)
 open Model
 
 let rec pos_of_int (n : int) : positive =
@@ -12,30 +15,26 @@ let int_of_z = function Z0 -> 0 | Zpos p -> int_of_pos p | Zneg p -> - (int_of_p
 let rec int_of_nat = function O -> 0 | S n -> 1 + int_of_nat n
 
 let ints_of_line (s : string) : int list =
-  (* tokens after the tag *)
   let toks = String.split_on_char ' ' s in
   List.filter_map (fun t -> if t = "" then None else Some (int_of_string t)) toks
 
 let show_ints (l : z list) = String.concat " " (List.map (fun z -> string_of_int (int_of_z z)) l)
 let show_lines (ls : z list list) = String.concat " | " (List.map show_ints ls)
 
-type hist = { hid : int; cfg : config; mutable evs : event list (* reversed *) }
+type hist = { hid : int; cfg : config; mutable evs : event list (* reversed while parsing *) }
 
 let props : (string * (Model.tproj * (config -> trace -> Model.violation list))) list = Props.table
 
-let () =
-  let prop = Sys.argv.(1) in
-  let file = Sys.argv.(2) in
-  let maxshow = if Array.length Sys.argv > 3 then int_of_string Sys.argv.(3) else 3 in
-  let (pi, pred) =
-    try List.assoc prop props with Not_found -> (prerr_endline ("unknown property " ^ prop); exit 2) in
+let fail_decode what line = Printf.printf "DECODEFAIL %s: %s\n" what line; exit 2
+
+(* calls [k] on every complete history of the file, in order *)
+let iter_file (file : string) (k : hist -> unit) : int =
   let ic = open_in file in
   let cur : hist option ref = ref None in
   let cop : op option ref = ref None in
   let creq : req option ref = ref None in
   let couts : (n * msg) list ref = ref [] in
-  let n_hist = ref 0 and n_ev = ref 0 and n_bad = ref 0 in
-  let fail_decode what line = Printf.printf "DECODEFAIL %s: %s\n" what line; exit 2 in
+  let n_ev = ref 0 in
   (try
      while true do
        let line = input_line ic in
@@ -74,30 +73,7 @@ let () =
             | _ -> fail_decode "V" line)
          | 'E' ->
            (match !cur with
-            | Some h ->
-              incr n_hist;
-              let impl = List.rev h.evs in
-              let mm = diff_trace_t h.cfg pi impl in
-              let pv = pred h.cfg impl in
-              let pvm = pred h.cfg (run h.cfg (List.map (fun e -> e.ev_op) impl)) in
-              List.iteri (fun i v ->
-                  if i < maxshow then
-                    Printf.printf "MODELVIOL %d at=%d code=%d info=%s\n" h.hid
-                      (int_of_nat v.v_index) (int_of_z v.v_code) (show_ints v.v_info)) pvm;
-              if mm = [] && pv = [] then Printf.printf "OK %d %d\n" h.hid (List.length impl)
-              else begin
-                incr n_bad;
-                Printf.printf "BAD %d mismatches=%d violations=%d\n" h.hid (List.length mm) (List.length pv);
-                List.iteri (fun i m ->
-                    if i < maxshow then
-                      Printf.printf "  MISMATCH %d at=%d\n    impl : %s\n    model: %s\n" h.hid
-                        (int_of_nat m.mm_index) (show_lines m.mm_impl) (show_lines m.mm_model)) mm;
-                List.iteri (fun i v ->
-                    if i < maxshow then
-                      Printf.printf "  PVIOL %d at=%d code=%d info=%s\n" h.hid
-                        (int_of_nat v.v_index) (int_of_z v.v_code) (show_ints v.v_info)) pv
-              end;
-              cur := None
+            | Some h -> h.evs <- List.rev h.evs; k h; cur := None
             | None -> fail_decode "E" line)
          | '#' -> ()
          | _ -> fail_decode "tag" line
@@ -105,5 +81,58 @@ let () =
      done
    with End_of_file -> ());
   close_in ic;
-  Printf.printf "SUMMARY histories=%d events=%d bad=%d\n" !n_hist !n_ev !n_bad;
+  !n_ev
+
+let show_viols hid maxshow tag (pv : violation list) =
+  List.iteri (fun i v ->
+      if i < maxshow then
+        Printf.printf "%s %d at=%d code=%d info=%s\n" tag hid
+          (int_of_nat v.v_index) (int_of_z v.v_code) (show_ints v.v_info)) pv
+
+let () =
+  let prop = Sys.argv.(1) in
+  let n_hist = ref 0 and n_bad = ref 0 in
+  if prop = "C17pair" then begin
+    let maxshow = if Array.length Sys.argv > 4 then int_of_string Sys.argv.(4) else 3 in
+    let base : (int, hist) Hashtbl.t = Hashtbl.create 64 in
+    let _ = iter_file Sys.argv.(2) (fun h -> Hashtbl.replace base h.hid h) in
+    let n_ev = iter_file Sys.argv.(3) (fun hf ->
+        incr n_hist;
+        (* history ids of the flagged runs are base id * 1000 + k *)
+        match Hashtbl.find_opt base (hf.hid / 1000) with
+        | None -> Printf.printf "DECODEFAIL nobase: %d\n" hf.hid; exit 2
+        | Some h0 ->
+          let pv = run_P_C17_pair hf.cfg h0.evs hf.evs in
+          if pv = [] then Printf.printf "OK %d %d\n" hf.hid (List.length hf.evs)
+          else begin
+            incr n_bad;
+            Printf.printf "BAD %d mismatches=0 violations=%d\n" hf.hid (List.length pv);
+            show_viols hf.hid maxshow "  PVIOL" pv
+          end) in
+    Printf.printf "SUMMARY histories=%d events=%d bad=%d\n" !n_hist n_ev !n_bad;
+    exit (if !n_bad = 0 then 0 else 1)
+  end;
+  let file = Sys.argv.(2) in
+  let maxshow = if Array.length Sys.argv > 3 then int_of_string Sys.argv.(3) else 3 in
+  let (pi, pred) =
+    try List.assoc prop props with Not_found -> (prerr_endline ("unknown property " ^ prop); exit 2) in
+  let n_ev = iter_file file (fun h ->
+      incr n_hist;
+      let impl = h.evs in
+      let mm = diff_trace_t h.cfg pi impl in
+      let pv = pred h.cfg impl in
+      (* diagnostic only: the predicate on the model's own trace (empty by the theorems) *)
+      let pvm = pred h.cfg (run h.cfg (List.map (fun e -> e.ev_op) impl)) in
+      show_viols h.hid maxshow "MODELVIOL" pvm;
+      if mm = [] && pv = [] then Printf.printf "OK %d %d\n" h.hid (List.length impl)
+      else begin
+        incr n_bad;
+        Printf.printf "BAD %d mismatches=%d violations=%d\n" h.hid (List.length mm) (List.length pv);
+        List.iteri (fun i m ->
+            if i < maxshow then
+              Printf.printf "  MISMATCH %d at=%d\n    impl : %s\n    model: %s\n" h.hid
+                (int_of_nat m.mm_index) (show_lines m.mm_impl) (show_lines m.mm_model)) mm;
+        show_viols h.hid maxshow "  PVIOL" pv
+      end) in
+  Printf.printf "SUMMARY histories=%d events=%d bad=%d\n" !n_hist n_ev !n_bad;
   exit (if !n_bad = 0 then 0 else 1)
